@@ -17,7 +17,7 @@ MANIFEST = dict(
     technique='TLA+ closed model Udp (receive queue; TLC exhaustive) + P-spec TraceSock validating sockets-API results and link-tap observations of the real stack (trace validation with nondeterministic whole-datagram admission)',
     text='TLC explores every interleaving of arrivals from two senders, reads, shutdown and close on the queue model (NoInvent, FIFO, whole-or-nothing, nothing after the read side closed). On the real stack, every datagram a socket returns must equal the head of the queue the P-spec maintains (bytes via length + first/last 48 bytes + RFC 1071 sum, source address and port), a datagram arriving at an empty queue must be admitted, under pressure it may only be dropped whole, and every successful write must be exactly one emitted datagram with exactly those bytes, correct ports/addresses/lengths/checksums; a failed write emits nothing.',
     design='5 C11',
-    note='Datagram identity uses (length, first 48, last 48 bytes, Internet checksum of the payload): a corruption confined to the middle that preserves the sum is not seen. A datagram whose UDP length field is smaller than the IP payload is malformed input (C07), not generated here. Concurrent readers vs delivery (E4) not explored yet.')
+    note='Datagram identity uses (length, first 48, last 48 bytes, Internet checksum of the payload): a corruption confined to the middle that preserves the sum is not seen. A datagram whose UDP length field is smaller than the IP payload is malformed input (C07), not generated here. Concurrent readers vs deliveries are checked for linearizability by TLC (2 injectors x 2 readers x 3 operations per history).')
 
 SPEC = ['sock']
 NIC = dict(id=1, mtu=1500, addr4=['10.0.0.1', '10.0.0.2'], addr6=['fd00::1'])
@@ -27,7 +27,7 @@ BIG = [1473, 1480, 2000, 2999, 3000, 4096, 8191, 9000, 20000, 65000, 65506, 6550
 
 def cuts_for(rng, n):
     tot = 8 + n
-    k = rng.choice([1, 1, 2, 3, 5])
+    k = rng.choice([1, 1, 2, 3, 5, 8, 9, 12, 20])      # up to 21 fragments (more views than the packet's inline view array)
     cs = sorted(set(8 * rng.randrange(1, max(2, (tot + 7) // 8)) for _ in range(k)))
     cs = [c for c in cs if 0 < c < tot]
     order = list(range(len(cs) + 1))
@@ -199,6 +199,30 @@ def run(ctx):
         key = classify(segs[si], ln)
         ctx.violation('UDP behaviour rejected by the C11 P-spec at event %d: %s' % (ln, {k: v for k, v in ev.items() if k not in ('pay', 'raw', 'got')}),
                       dict(kind='scenario', scenario=scs[si], events=segs[si][:ln + 1]), key=key)
+    # ---- E4: injector goroutines racing reader goroutines on one socket; TLC places the linearization points
+    rd = ctx.go_build('udpraced')
+    rp = os.path.join(ctx.work, 'udprace.ndjson')
+    hists = ctx.pick(60, 600)
+    ctx.run([rd, 'run', rp, str(ctx.seed), str(hists), '2', '2', '3'], timeout=1200)
+    rsegs = vlib.split_segments(vlib.read_ndjson(rp))
+    lc = cfg(spec='TSpec', constraint='HWMark', postcondition='Accepted')
+    acc, rej = vlib.validate_segments(ctx, 'TraceUdpLin', lc, SPEC, rsegs, name='udplin', timeout=3000)
+    ctx.traces += acc
+    ctx.extra['concurrent_histories'] = len(rsegs)
+    overlap = sum(1 for sg in rsegs if any(sg[i]['ev'] == 'call' and sg[i + 1]['ev'] == 'call' for i in range(len(sg) - 1)))
+    ctx.extra['concurrent_histories_with_overlapping_calls'] = overlap
+    ctx.sample(dict(kind='concurrent-history', events=rsegs[0][:12]))
+    for si, ln in rej:
+        ctx.violation('concurrent deliveries/reads on one UDP socket are not linearizable w.r.t. the C11 queue P-spec (event %d)' % ln,
+                      dict(kind='udprace', seed=ctx.seed, history=si, events=rsegs[si][:ln + 1]))
+    badh = copy.deepcopy(next(sg for sg in rsegs if any(e['ev'] == 'ret' and e.get('ok') for e in sg)))
+    for e in badh:
+        if e['ev'] == 'ret' and e.get('ok'):
+            e['sum'] = (e['sum'] + 1) % 65536
+            break
+    a, rj = vlib.validate_segments(ctx, 'TraceUdpLin', lc, SPEC, [badh], name='selftest-lin', count=False)
+    if not rj:
+        raise vlib.Inconclusive('binding self-test failed: corrupted concurrent history accepted')
     # ---- binding self-test: swap the sender port of one returned datagram; drop one emit
     base = next((s for s in segs if any(e.get('op') == 'read' and e.get('ok') for e in s)), None)
     bad = copy.deepcopy(base)
